@@ -54,7 +54,32 @@ def gen_specialist(rng):
 def make_case(prop, seed, i, tier):
     rng = rng_for(prop, seed, i)
     if i >= len(pairs()) and i % 10 == 7:
-        return dict(prop=prop, i=i, kind="feasible", source="feasible-specialist", spec=gen_specialist(rng))
+        spec = gen_specialist(rng)
+        if i % 20 == 17:
+            # the same class, beyond the usual sizes: a run of hundreds of steps in which the specialist (or the
+            # whole project) is away for a hundred and more consecutive steps
+            f = rng.choice([20.0, 40.0])
+            for t in spec["tasks"]:
+                t["work"] = t["work"] * f
+            a0 = rng.choice([5, 25, 60])
+            block = list(range(a0, a0 + rng.choice([100, 101, 125, 140])))
+            if rng.random() < 0.5:
+                spec["teams"][0]["workers"][0]["absence"] = block
+            else:
+                spec["sim"]["absence"] = block
+            spec["sim"]["max_time"] = G.feasible_bound(spec)
+            return dict(prop=prop, i=i, kind="feasible", source="feasible-specialist-long", spec=spec)
+        return dict(prop=prop, i=i, kind="feasible", source="feasible-specialist", spec=spec)
+    if i >= len(pairs()) and i % 20 == 13:
+        # wide and finish-gated models with a worker per task (class 2), status cases on other large models
+        kind = rng.choice(["wide", "ff_chain", "one_component", "long", "many_resources"])
+        spec = G.gen_scale(rng, kind)
+        if kind in ("wide", "ff_chain"):
+            spec["sim"]["absence"] = []
+            spec["sim"]["max_time"] = G.feasible_bound(spec)
+            spec["feasible_class"] = 2
+            return dict(prop=prop, i=i, kind="feasible", source="scale:" + kind, spec=spec)
+        return dict(prop=prop, i=i, kind="status", source="scale:" + kind, spec=spec)
     if i < len(pairs()):
         spec = copy.deepcopy(pairs()[i])
         sh = spec["shape"]
